@@ -59,7 +59,19 @@ def strategy(tier):
     return _case(tier)
 
 
+def enumerate_cases(tier):
+    """Digests must also be true when the CALLER's stream fails once while being read (see C01): the store may
+    raise, but if it reports success every reported digest is the digest of the stored content."""
+    from . import c01
+    for case in c01.enumerate_cases(tier):
+        if case.get("family") == "flaky-stream":
+            yield case
+
+
 def run_case(case, ctx):
+    if case.get("family") == "flaky-stream":
+        from . import c01
+        return c01._flaky_case(case, ctx)
     run = seq.Run(case, ctx)
     prev = []
     # every (pid, algorithm, instance) question asked during the history is asked again at the end
